@@ -19,8 +19,8 @@ DESIGN_REF = 'DESIGN.md section 5 / C20'
 TECHNIQUE = ('exhaustive enumeration of score vectors (6-letter alphabet, length <= 4, ties included) x parameters for each selection primitive with '
              'numpy.random replaced by a recorder; captured sampling distribution compared with the definition of the exponential mechanism')
 RULE = ('case = (primitive, score vector, eps, sensitivity, base measure, form); score vectors: ALL tuples of length 1..3 (quick) / 1..4 (thorough) over '
-        '{0,1,-1,2.5,1e6,-1e6}; eps {0.1,1,10}; sensitivity {0.5,1,2}; base measure {None, uniform, (1,2,3,4)}; primitives: Mechanism.exponential_mechanism '
-        '(array, dict), mst.exponential_mechanism, adaptive_grid.exponential_mechanism (both monotonic values), mwem worst_approximated, '
+        '{0,1,-1,2.5,1e6,-1e6}; eps {0.1,1,10}; sensitivity {0.5,1,2}; base measure {None, uniform, (1,2,3,4), (0,1,2,3)}; primitives: Mechanism.exponential_mechanism '
+        '(array, dict), mst.exponential_mechanism, adaptive_grid.exponential_mechanism (both monotonic values; keyword call and positional call with a caller-owned generator), mwem worst_approximated, '
         'AIM.worst_approximated, generalized_exponential_mechanism (delegation), scale helpers and samplers. non-trivial = vector length >= 2; '
         'distinct = digest of the case.')
 LEVEL_TEXT = ('The space of score vectors over the alphabet is enumerated completely for each primitive and parameter combination and the probability '
@@ -124,6 +124,8 @@ def run_vector(acc, q, tier):
     n = q.size
     keys = ['k%d' % i for i in range(n)]
     bases = [None, np.ones(n), np.arange(1, n + 1, dtype=float)]
+    if n >= 2:
+        bases.append(np.arange(0, n, dtype=float))   # the first candidate has base measure exactly 0: it must never be selected
     for eps, sens in itertools.product(EPS, SENS):
         for shift in (0.0, 3.0, -1e5):
             qs = q + shift
@@ -149,11 +151,12 @@ def run_vector(acc, q, tier):
                                 continue
                             out = m.exponential_mechanism(list(qs), eps, sens)
                         else:
-                            out = m.exponential_mechanism(qs.copy(), eps, sens, base_measure=None if base is None else np.log(base))
+                            with np.errstate(divide='ignore'):
+                                out = m.exponential_mechanism(qs.copy(), eps, sens, base_measure=None if base is None else np.log(base))
                     case = {'q0': q.tolist(), 'prim': 'Mechanism.exponential_mechanism', 'q': qs.tolist(), 'eps': eps, 'sens': sens, 'base': bi, 'form': form}
                     acc.case(case, nontrivial=n >= 2)
                     err = compare(rec.p, ref, S)
-                    if err is None and form.startswith('dict') and out != keys[0]:
+                    if err is None and form.startswith('dict') and out != keys[0] and bi != 3:
                         err = 'dict form returned %r, expected the key of the drawn index' % (out,)
                     if err:
                         acc.violate(case, {'kind': 'miscalibrated', 'prim': 'Mechanism.exponential_mechanism', 'form': form}, err)
@@ -163,14 +166,27 @@ def run_vector(acc, q, tier):
                     coef = 1.0 if mono else 0.5
                     ref = O.exp_mech_probs(q, eps, sens, coef, None)
                     S = float(np.max(np.abs(coef * eps / sens * qs)))
-                    rec = Recorder()
-                    with E.installed(rec):
-                        fn(qs.copy(), eps, sens, monotonic=mono)
-                    case = {'q0': q.tolist(), 'prim': name, 'q': qs.tolist(), 'eps': eps, 'sens': sens, 'monotonic': mono}
-                    acc.case(case, nontrivial=n >= 2)
-                    err = compare(rec.p, ref, S)
-                    if err:
-                        acc.violate(case, {'kind': 'miscalibrated', 'prim': name, 'monotonic': mono}, err)
+                    for call in ('keyword', 'positional-prng-only', 'positional'):
+                        if call == 'positional-prng-only' and mono:
+                            continue
+                        rec = Recorder()
+                        own = Recorder()
+                        with E.installed(rec):
+                            if call == 'keyword':
+                                fn(qs.copy(), eps, sens, monotonic=mono)
+                            elif call == 'positional-prng-only':
+                                fn(qs.copy(), eps, sens, own)
+                            else:
+                                # documented positional order (q, eps, sensitivity, prng, monotonic) with a caller-owned generator
+                                fn(qs.copy(), eps, sens, own, mono)
+                        case = {'q0': q.tolist(), 'prim': name, 'q': qs.tolist(), 'eps': eps, 'sens': sens, 'monotonic': mono, 'call': call}
+                        acc.case(case, nontrivial=n >= 2)
+                        if call != 'keyword' and rec.p is not None:
+                            err = 'a generator was supplied but the draw was taken from the global numpy.random'
+                        else:
+                            err = compare(rec.p if call == 'keyword' else own.p, ref, S)
+                        if err:
+                            acc.violate(case, {'kind': 'miscalibrated', 'prim': name, 'monotonic': mono, 'call': call}, err)
         # adaptive_grid documents eps = inf (greedy limit): uniform over the candidates tied for the best quality
         # (sensitivity < 1 is outside the alphabet here: finfo.max / 0.5 overflows to inf and inf*0 = NaN - eps = inf is an
         #  implementation extension, the property's epsilon is a finite privacy parameter; noted in DESIGN.md 11.6)
